@@ -816,7 +816,7 @@ impl World {
                     return Ok(());
                 }
                 // C03: a fresh replica on the same storage sees the same state
-                if self.is(&["C03", "C17"]) {
+                if self.is(&["C03", "C17", "C09"]) {
                     self.check_reopen_equals_live(r, &after, "after-commit")?;
                 }
                 self.sync_point(r, "commit", Some(&after))?;
@@ -1569,6 +1569,21 @@ impl World {
             // create_object under an identifier the replica does not know yet
             uuid = format!("n{}", id_sel % 7);
         }
+        if kind == 4 {
+            // two new objects with byte-identical content in the same stage (one stored value serves
+            // both), then the first is withdrawn again
+            let (ua, ub) = (format!("n{}", id_sel % 7), format!("n{}", (id_sel + 1 + (id_sel / 7) % 5) % 7));
+            let (f1, f2) = (f.clone(), f.clone());
+            let _ = self.call("objop", || {
+                let _ = m.create_object(&ua, f1);
+                let _ = m.create_object(&ub, f2);
+                m.remove_object(&ua).map(|_| ())
+            })?;
+            self.replicas[r].model_doc = None;
+            self.bump("probe.objop");
+            self.bump("probe.objop_twin_content");
+            return Ok(());
+        }
         let res = self.call("objop", || match kind {
             0 => m.update_object(&uuid, f).map(|_| ()),
             1 => m.delete_object(&uuid).map(|_| ()),
@@ -2093,6 +2108,9 @@ impl World {
                     }
                 }
             }
+        }
+        if self.is(&["C05"]) && self.step % 5 == 0 {
+            crate::treecheck::synthetic_trees(self)?;
         }
         if self.is(&["C05"]) && ic != ref_ic {
             viol!(self, "winner-rule", "tree-in-conflict", "in_conflict = {:?} but the rule gives {:?}", ic, ref_ic);
